@@ -316,7 +316,10 @@ def execute(case, stats):
             V("frontend-exception", phase, {"error": f"{type(e).__name__}: {e}"[:300], "tb": traceback.format_exc()[-400:]})
             return res
         if len(calls) != 1:
-            raise HarnessError(f"HARNESS-UNSUPPORTED: front-end made {len(calls)} kernel calls")
+            # the front-end does not go through the evaluate_on_grid seam as known here: nothing to schedule,
+            # the returned Plot is judged at user level only
+            stats.inc("probe.kernel_seam_not_used")
+            calls = [{"args": None, "result": None, "sim": Sim(T=1)}]
         runs.append((plot, calls[0]))
         if phase == "t1":
             dry_sim = calls[0]["sim"]
@@ -439,7 +442,7 @@ def finalize(tier, base_seed, stats, viols):
         case = generate(rng, tier)
         case["sched"] = {"T": 1, "partition": {"kind": "static-equal"}, "policy": {"kind": "seq"}, "sched_seed": 0}
         res = execute(case, core.Stats())
-        if res["violations"] or "kernel_args" not in res:
+        if res["violations"] or res.get("kernel_args") is None:
             continue
         args = res["kernel_args"]
         mod, orig, ks = kernel(MODNAME, KATTR)
